@@ -245,3 +245,71 @@ pub mod wt {
         first = Tok, 1, |c| c.0
     );
 }
+
+/// WZF: an archetype whose FIRST column is zero-sized (pointer arithmetic on a dangling,
+/// zero-stride first column), value column second, padded column last.
+pub mod wzf {
+    use gecs::prelude::*;
+
+    #[derive(Clone, Copy, PartialEq, Debug)]
+    pub struct Zf;
+    #[derive(Clone, Copy, PartialEq, Debug)]
+    pub struct Pz(pub u8);
+    #[derive(Clone, Copy, PartialEq, Debug)]
+    #[repr(C)]
+    pub struct Padz(pub u8, pub u32);
+
+    ecs_world! {
+        ecs_name!(WZF);
+        #[archetype_id(11)]
+        ecs_archetype!(ArchZf, Zf, Pz, Padz);
+    }
+
+    crate::model_arch!(
+        ZfM, WZF, |cap| WZF::with_capacity(WZFCapacity { arch_zf: cap }),
+        ArchZf, arch_zf, 11, 3, u32::MAX,
+        mk = |v, x| ArchZfComponents { zf: Zf, pz: Pz(v), padz: Padz(v ^ 0x5a, x) },
+        un = |c| (c.pz.0, c.padz.1, c.padz.0 == c.pz.0 ^ 0x5a),
+        get = |a, i| {
+            let p = a.get_slice::<Pz>()[i].0;
+            let pad = a.get_slice::<Padz>()[i];
+            (p, pad.1, pad.0 == p ^ 0x5a)
+        },
+        first = Pz, 2, |c| c.0
+    );
+    crate::paths_impl!(ZfM, ArchZf, ArchZfComponents, |v, x| [(zf, Zf, Zf), (pz, Pz, Pz(v)), (padz, Padz, Padz(v ^ 0x5a, x))]);
+}
+
+/// WMX: archetypes that MIX a column with drop glue (the C04 token) and plain-data columns,
+/// in both orders, in one world whose explicit ids DESCEND in declaration order.
+pub mod wmx {
+    pub use super::wt::{reset, Tok, CLONES, DROPS};
+    use gecs::prelude::*;
+
+    #[derive(Clone, Copy, PartialEq, Debug)]
+    pub struct Plain(pub u32);
+
+    ecs_world! {
+        ecs_name!(WMX);
+        #[archetype_id(40)]
+        ecs_archetype!(ArchTp, Tok, Plain);
+        #[archetype_id(20)]
+        ecs_archetype!(ArchPt, Plain, Tok);
+        #[archetype_id(30)]
+        ecs_archetype!(ArchPp, Plain);
+    }
+}
+
+/// WZZ: an archetype whose ONLY column is zero-sized (no component allocation at all).
+pub mod wzz {
+    use gecs::prelude::*;
+
+    #[derive(Clone, Copy, PartialEq, Debug)]
+    pub struct Zu;
+
+    ecs_world! {
+        ecs_name!(WZZ);
+        #[archetype_id(77)]
+        ecs_archetype!(ArchZz, Zu);
+    }
+}
